@@ -63,8 +63,9 @@ req_st = st.fixed_dictionaries({
 sched_list = st.one_of(st.just([]), st.lists(st.sampled_from([0, 0, 1, 2, 3, 5, 8, 13, 64, 1000]), min_size=1, max_size=6))
 sched_st = st.fixed_dictionaries({"a_send": sched_list, "a_recv": sched_list, "b_send": sched_list, "b_recv": sched_list})
 case_st = st.fixed_dictionaries({
-    "reqs": st.lists(req_st, min_size=1, max_size=8),
+    "reqs": st.sampled_from([1, 2, 2, 3, 3, 4, 5, 6, 7, 8]).flatmap(lambda n: st.lists(req_st, min_size=n, max_size=n)),
     "ops": st.text(alphabet="ccssq", max_size=60),
+    "collect": st.sampled_from(["each", "end"]),
     "sched": sched_st,
 })
 
@@ -131,12 +132,25 @@ class Run(object):
         self.valet = valet
         self.queued = 0
         self.delivered = []      # (response dict reference, body snapshot at delivery)
+        self.snaps = {}          # id(response) -> body snapshot, for responses still queued in the Patron
         self.fails = []
 
-    def collect(self):
-        while self.patron.responses:
-            resp = self.patron.responses.popleft()
-            self.delivered.append((resp, bytes(resp["body"])))
+    def collect(self, final=False):
+        """Take delivered responses from the client's queue.
+
+        collect mode "each": popped as soon as they appear (a user polling Patron.respond()).
+        collect mode "end": left to accumulate in Patron.responses and popped, in queue order,
+        when the history is over; the body of each is still snapshotted when it first appears.
+        """
+        if self.case.get("collect", "each") == "each" or final:
+            while self.patron.responses:
+                resp = self.patron.responses.popleft()
+                snap = self.snaps.pop(id(resp), None)
+                self.delivered.append((resp, bytes(resp["body"]) if snap is None else snap))
+        else:
+            for resp in self.patron.responses:
+                if id(resp) not in self.snaps:
+                    self.snaps[id(resp)] = bytes(resp["body"])
 
     def queue_next(self):
         if self.queued < len(self.reqs):
@@ -154,8 +168,12 @@ class Run(object):
 
     def done(self):
         self.collect()
-        return (self.queued == len(self.reqs) and len(self.delivered) >= len(self.reqs)
-                and not self.patron.waited and not self.patron.requests)
+        n = len(self.delivered) + len(self.patron.responses)
+        if (self.queued == len(self.reqs) and n >= len(self.reqs)
+                and not self.patron.waited and not self.patron.requests):
+            self.collect(final=True)
+            return True
+        return False
 
 
 def judge(run, calls, state, rounds):
@@ -233,7 +251,7 @@ def run_memory(case):
             for _ in range(3):
                 mp.patron.serviceAll()
                 mp.valet.serviceAll()
-            run.collect()
+            run.collect(final=True)
             if len(run.delivered) != len(case["reqs"]):
                 fails.append(("extra-response", "%d responses after idling" % len(run.delivered)))
             if len(mp.connector.rxbs) or mp.pipe.in_flight():
@@ -298,6 +316,7 @@ def classify(case):
         cls.append("fixed-then-nolength")
     if any(case["sched"].get(k) for k in case["sched"]):
         cls.append("chunked-transport")
+    cls.append("collect:" + case.get("collect", "each"))
     if "q" in case["ops"]:
         cls.append("requests-queued-during-service")
     if any(r["method"] != "GET" and r["reqbody"] for r in case["reqs"]):
@@ -320,7 +339,7 @@ def work(shard, seed, tier):
             nt, cls = classify(case)
             return Outcome(run_memory(case), nontrivial=nt, classes=cls + ["transport:memory"], key=case)
         campaign(acc, case_st, execute, n, seed * 1000 + shard["i"], to_case=lambda c: dict(c, transport="memory"),
-                 budget=Budget(30 if tier == "quick" else 480), shrink_examples=300)
+                 budget=Budget(90 if tier == "quick" else 480), shrink_examples=300)
     else:
         def execute(case):
             nt, cls = classify(case)
